@@ -529,12 +529,22 @@ def _make_path2(name):
     return f
 
 
+SIM_PID = 4242
+
+
+def _getpid():
+    # process identity is a nondeterminism source (temp-file names): a simulated process has a fixed pid
+    return SIM_PID if _ACTIVE is not None else _orig["getpid"]()
+
+
 def install():
     """Install the dispatching wrappers process-wide (idempotent)."""
     global _installed
     if _installed:
         return
     _installed = True
+    _orig["getpid"] = os.getpid
+    os.getpid = _getpid
     _orig["open"] = os.open
     _orig["write"] = os.write
     _orig["close"] = os.close
